@@ -141,30 +141,45 @@ func ttestCases(r *hx.Rand, n int) {
 		}
 		var fW, fP, fR, fO, oW, oP, oR, oO string
 		fR, oR = "-", "-"
+		// the tests see WINDOWS of larger arrays (spare capacity, sentinels around): afterwards the
+		// callers' data must be bit-identical and in the original order
+		var winX, winY *window
+		xv, yv := xs, ys
+		if xs != nil {
+			winX, xv = newWindow(xs)
+			winY, yv = newWindow(ys)
+		}
+		again := true
 		ok := guard("ttest", func() {
 			var sa, sb stats.TTestSample = a, b
 			if xs != nil {
-				sa, sb = stats.Sample{Xs: xs}, stats.Sample{Xs: ys}
-			}
-			if len(xs) == 0 && xs != nil {
-				// Sample.Mean of an empty sample is NaN; the tests must report the size first
-				sa = stats.Sample{Xs: xs}
+				sa, sb = stats.Sample{Xs: xv}, stats.Sample{Xs: yv}
 			}
 			fW, oW = resField(stats.TwoSampleWelchTTest(sa, sb, alt))
 			fP, oP = resField(stats.TwoSampleTTest(sa, sb, alt))
 			fO, oO = resField(stats.OneSampleTTest(sa, mu, alt))
 			if xs != nil {
-				fR, oR = resField(stats.PairedTTest(xs, ys, mu, alt))
+				fR, oR = resField(stats.PairedTTest(xv, yv, mu, alt))
 			}
+			// the same samples asked again, in another order, must give the same results
+			gO, _ := resField(stats.OneSampleTTest(sa, mu, alt))
+			gR := "-"
+			if xs != nil {
+				gR, _ = resField(stats.PairedTTest(xv, yv, mu, alt))
+			}
+			gP, _ := resField(stats.TwoSampleTTest(sa, sb, alt))
+			gW, _ := resField(stats.TwoSampleWelchTTest(sa, sb, alt))
+			again = gO == fO && gR == fR && gP == fP && gW == fW
 		})
-		hx.Printf("case %d kind=ttest n1=%s m1=%s v1=%s n2=%s m2=%s v2=%s mu=%s alt=%d xs=%s ys=%s W=%s P=%s R=%s O=%s tag=%s\n",
-			id, fb(a.n), fb(a.m), fb(a.v), fb(b.n), fb(b.m), fb(b.v), fb(mu), int(alt), fbList(xs), fbList(ys), fW, fP, fR, fO, tag)
+		kept := winX == nil || (winX.kept() && winY.kept())
+		hx.Printf("case %d kind=ttest n1=%s m1=%s v1=%s n2=%s m2=%s v2=%s mu=%s alt=%d xs=%s ys=%s W=%s P=%s R=%s O=%s kept=%s again=%s tag=%s\n",
+			id, fb(a.n), fb(a.m), fb(a.v), fb(b.n), fb(b.m), fb(b.v), fb(mu), int(alt), fbList(xs), fbList(ys), fW, fP, fR, fO, b2s(kept, "1", "0"), b2s(again, "1", "0"), tag)
 		if ok {
 			hx.Printf("obs %d welch=%s pooled=%s paired=%s one=%s\n", id, oW, oP, oR, oO)
 			if xs != nil {
-				hx.Printf("sobs %d welch=ok pooled=ok paired=ok one=ok ptail=ok\n", id)
+				hx.Printf("sobs %d welch=ok pooled=ok paired=ok one=ok ptail=ok in=kept again=same\n", id)
 			} else {
-				hx.Printf("sobs %d ptail=ok\n", id)
+				hx.Printf("sobs %d ptail=ok in=kept again=same\n", id)
 			}
 		}
 		id++
